@@ -365,6 +365,12 @@ func c02StructHeader(part string, h *jws.Header, w map[string]vf.Wire, checks *[
 			if got == nil || got.String() != u.String() {
 				return which
 			}
+			// the VALUE, not only its text: a parser that folds "#fragment" into the query or the path can print
+			// the same string and still hand back another URL
+			if got.Scheme != u.Scheme || got.Opaque != u.Opaque || got.Host != u.Host || got.Path != u.Path || got.RawQuery != u.RawQuery ||
+				got.Fragment != u.Fragment || got.User.String() != u.User.String() {
+				return which + " (components)"
+			}
 			return ""
 		})
 	}
@@ -434,6 +440,10 @@ func c02StructHeader(part string, h *jws.Header, w map[string]vf.Wire, checks *[
 		setURL("x5u", "urn:example:certs:leaf-11")
 	case "x5u2":
 		setURL("x5u", "//cdn.example.net/c%C3%A9rt.pem?")
+	case "jku3":
+		setURL("jku", "https://example.com/jwks.json#key-2024")
+	case "x5u3":
+		setURL("x5u", "https://example.com/certs/bundle.pem#leaf%201")
 	case "plain", "", "kid", "algboth":
 	default:
 		panic("c02: unknown header set " + part)
@@ -932,7 +942,7 @@ func c02RecordedSigs(cs c02Case, data []byte, signers []c02Signer) map[string][]
 
 // header sets with STRUCTURED registered parameters (each alone; combinations via "mix")
 var c02StructSets = []string{"x5c1", "x5c2", "x5c3", "x5t-explicit", "x5t-only", "jwk-rsa", "jwk-p256", "jwk-p384",
-	"jwk-p521", "jwk-k1", "jwk-ed25519", "jwk-ed448", "jku", "jku2", "x5u", "x5u2"}
+	"jwk-p521", "jwk-k1", "jwk-ed25519", "jwk-ed448", "jku", "jku2", "x5u", "x5u2", "jku3", "x5u3"}
 
 func c02Grid(c *vf.Ctx) []c02Case {
 	var grid []c02Case
